@@ -482,6 +482,10 @@ C17_run(H) ==
     /\ H.out.ok /\ Len(H.out.runs) = H.par.queries
     /\ \A r \in DOMAIN H.out.runs :
          LET hops == H.out.runs[r].hops IN
+         IF ex.single
+         THEN /\ Len(hops) = 1 /\ hops[1].ttl = 1
+              /\ (IF ex.skip /\ ex.private[1] THEN hops[1].addr = "" /\ hops[1].rtt_us = 0 /\ ~hops[1].reach ELSE hops[1].addr = ex.routers[1])
+         ELSE
          /\ Len(hops) = 8
          /\ \A k \in 1..7 :
               /\ hops[k].ttl = k
